@@ -35,7 +35,7 @@ from fractions import Fraction
 from vlib import core, corr
 
 GENERATORS = ["c12_consts", "c12_recv_order"]
-DEPENDS = ["AckQueue", "AckQueueP", "AckQueueP2", "AckQueueP3", "RecvAck", "RecvAckP", "RangeSet", "RangeSetP", "AckFrame",
+DEPENDS = ["AckQueue", "AckQueueP", "AckQueueP2", "AckQueueP3", "RecvAck", "RecvAckP", "RecvAckT", "RecvAckD", "RangeSet", "RangeSetP", "AckFrame",
            "AckFrameProofs", "C12Consts", "C12RecvOrder", "Base", "Tok", "C12"]
 TRUSTED_BASE = [
     "Coq kernel; extraction (ExtrOcamlBasic only; Z kept inductive) + coq/extract/driver.ml for running coq/model/AckQueue.v",
@@ -64,6 +64,12 @@ ASSUMPTIONS = [
     "the clock is monotone; the encoded ACK delay is in [0, 2^62)",
     "composed theorems (creach): a decrypted packet number lies in [0, 2^62) -- the ONLY premise; in particular no premise "
     "that acknowledged ACK frames were written (an unknown handler argument has no handler in the model)",
+    "composed timeliness (creach_t, ack_timely_composed): ONE clock for the whole connection that never goes back over "
+    "packets and sends of all three spaces, every d = fl(now + _ack_delay) - now in [0, dmax], encodable delay, at most "
+    "MAX_ACK_RANGES ranges queued at a send (same premise as reach_t); no premise on verdicts, payload effects, discards",
+    "composed discipline (creach_d, ack_timely_cap_composed): as creach_t without the range-count premise; per space, no "
+    "further packet of the space is handed to the connection before a send of that space with room for the ACK frame was "
+    "made (any pacer verdict); CAP_ACK_NOW and PACING_LE true (tree with docs/C12-fix-2.patch)",
     "ack_timely: at most MAX_ACK_RANGES ranges are queued when the ACK is written; with docs/C12-fix-2.patch (CAP_ACK_NOW, "
     "PACING_LE probed from the source) this premise is discharged by the driver discipline 'a datagrams_to_send with room "
     "after every receive_datagram' (ack_timely_cap); otherwise / without the discipline ack_timely_cap_refuted applies",
@@ -357,6 +363,19 @@ class Tracer:
                              {"oracle": "O4", "api": name, "exception": c.exc_type}))
             self.hist.append(("raised", self.pair.clock.now, name, c.exc_type))
 
+    def timed_premise(self, t, d):
+        """premises of creach_t (proofs/RecvAckT.v, ack_timely_composed): ONE clock for all spaces that never goes back,
+        and every acknowledgement delay fl(now + _ack_delay) - now within dmax = the advertised max_ack_delay"""
+        last = getattr(self, "last_t", None)
+        if last is not None and t < last:
+            self.bad.append(("the clock went back between two API calls (%r < %r)" % (t, last), {"oracle": "premise"}))
+        self.last_t = t
+        if d is not None:
+            dmax = self.c["ADV_MAX_ACK_DELAY_MS"] * SCALE // 1000
+            if not (0 <= d <= dmax):
+                self.bad.append(("acknowledgement delay %r outside [0, dmax = %r]" % (d, dmax), {"oracle": "premise"}))
+            self.counts["timed_premise_checked"] = self.counts.get("timed_premise_checked", 0) + 1
+
     def on_receive(self, now, args, kwargs):
         before = self.peek()
         self.cur = []
@@ -373,6 +392,7 @@ class Tracer:
         after = self.peek()
         t = enc(now)
         d = enc(now + self.c["ACK_DELAY_US"] / 1000000) - t
+        self.timed_premise(t, d)
         pkts = []
         for e in self.cur:
             if e[0] == "pkt":
@@ -535,6 +555,7 @@ class Tracer:
         for sp, room in self.ackcalls:
             rooms.setdefault(sp, room)
         t = enc(now)
+        self.timed_premise(t, None)
         # a frame written before the ACK in the first application packet (PATH_CHALLENGE on an unvalidated path) made
         # the builder stop: the ACK branch was not reached (premise of the model's Send op: it is reached)
         app_starts = [i for i, (pt, okk) in enumerate(self.starts) if tsp[pt] == 2 and okk]
